@@ -3,6 +3,7 @@
 package checks
 
 import (
+	"time"
 	"bytes"
 	"os"
 	"encoding/binary"
@@ -470,6 +471,7 @@ func init() {
 func runC20() int {
 	rep := core.NewReport("C20", "model_checking")
 	pool := core.NewPool()
+	pool.TaskTimeout = 2 * time.Minute // a task is a few thousand decodes (seconds); a decoder that never returns is a violation, not a reason to wait
 	pool.MemKB = 3 << 20 // 3 GB of address space per worker: an allocation bomb kills the worker, not the check
 	pool.Recycle = 50
 	names := []string{}
